@@ -21,6 +21,8 @@ pub enum Engine {
     Crash,
     /// Prepared state + concurrent threads under the baton scheduler; sequential orders of the real code as reference.
     Conc,
+    /// Outage placed at every (sampled) node call of a concurrent scenario.
+    Outage,
 }
 
 pub struct PropSpec {
@@ -47,12 +49,15 @@ pub const SPECS: &[PropSpec] = &[
     PropSpec { id: "C09", engine: Engine::Seq, profiles: &[(Profile::Expiry, 85), (Profile::Breach, 15)], level: "exploration", quick_secs: 60, quick_runs: 30_000, thorough_secs: 900, rule: RULE_SEQ },
     PropSpec { id: "C10", engine: Engine::Conc, profiles: &[], level: "exploration", quick_secs: 75, quick_runs: 100_000, thorough_secs: 1200, rule: RULE_CONC },
     PropSpec { id: "C11", engine: Engine::Seq, profiles: &[(Profile::Resubmit, 50), (Profile::Breach, 20), (Profile::Chain, 20), (Profile::Expiry, 10)], level: "exploration", quick_secs: 60, quick_runs: 30_000, thorough_secs: 900, rule: RULE_SEQ },
+    PropSpec { id: "C12", engine: Engine::Outage, profiles: &[], level: "fault_enumeration", quick_secs: 75, quick_runs: 100_000, thorough_secs: 1200, rule: RULE_OUTAGE },
     PropSpec { id: "C19", engine: Engine::Seq, profiles: &[(Profile::Chain, 70), (Profile::Breach, 30)], level: "exploration", quick_secs: 60, quick_runs: 30_000, thorough_secs: 900, rule: RULE_SEQ },
 ];
 
 const RULE_CRASH: &str = "histories as for C01 (shorter, with block-download failures and multi-block polls); each history is first executed uninterrupted to number the crash points it passes (before/after every durable write and explicit sqlite commit, before/after every node RPC and block-source call); then it is re-executed once per crash point (quick: 12 sampled per history; thorough: every point), the tower being killed there, restarted on the same sqlite file and driven through the remaining operations; evaluations = executions; non-trivial = a crash actually fired in a run with at least one breach / tracker transition / purge; distinct = distinct (history hash, crash point)";
 
 const RULE_CONC: &str = "scenarios = seeded prepared state (sequential prefix) + 2-3 simulated threads (chain thread polling prepared blocks, API threads) from 8 templates (appointment vs block with its dispute, duplicate submission, registration vs submission, replacement vs trigger, completion/refund vs request, purge vs request, reorg vs request, free mix); each scenario is first run in every sequential order of its operations (reference outcomes from the real code), then under seeded random and PCT(d=2,3) schedules at lock / condvar / node-RPC granularity; evaluations = executions; distinct = distinct (scenario, schedule trace); non-trivial = schedule with at least one preemption";
+
+const RULE_OUTAGE: &str = "scenarios = appointments / trackers in place + blocks waiting to be polled; chain thread polls 3-6 times, an API thread submits / reads, an environment thread brings the node back after it went down; a dry run numbers the RPCs and block-source calls of the concurrent phase, then the outage (transport error on every node call) is started at each of them (quick: 7 sampled per scenario; thorough: every one), on the request path and on the block path, each under 2-3 seeded schedules; evaluations = executions; distinct = distinct (scenario, outage point, schedule trace)";
 
 pub fn spec(id: &str) -> Option<&'static PropSpec> {
     SPECS.iter().find(|s| s.id == id)
@@ -239,7 +244,7 @@ pub fn cmd_worker(args: &[String]) -> i32 {
     });
     let known = load_known();
     let mut out = WorkerOut::default();
-    if spec.engine == Engine::Conc || args.get(9).map(|s| s == "conc").unwrap_or(false) {
+    if spec.engine == Engine::Conc || spec.engine == Engine::Outage || args.get(9).map(|s| s == "conc").unwrap_or(false) {
         return conc_worker(spec, root, start, step, max_index, deadline, outfile, want_digests, thorough, &known);
     }
     let mut nontrivial: BTreeSet<u64> = BTreeSet::new();
@@ -398,8 +403,9 @@ fn conc_worker(
     let mut i = start;
     while i < max_index && now_ms() < deadline {
         let seed = derive(root, &format!("{}-conc", spec.id), i);
-        let sc = gen_scenario(spec.id, seed);
-        let o = explore_scenario(&sc, n_sched);
+        let outage = spec.engine == Engine::Outage;
+        let sc = if outage { crate::conc_check::gen_outage_scenario(spec.id, seed) } else { gen_scenario(spec.id, seed) };
+        let o = if outage { crate::conc_check::explore_outage(&sc, thorough) } else { explore_scenario(&sc, n_sched) };
         out.runs += o.runs;
         out.ops += (sc.prefix.len() + sc.threads.iter().map(|t| t.len()).sum::<usize>()) as u64 * o.runs;
         out.sched_steps += o.steps;
@@ -447,7 +453,19 @@ fn conc_worker(
                 continue;
             }
             handled.insert(f.signature.clone());
-            let (min_sc, strat) = minimise_scenario(&sc, spec.id, &f.signature, n_sched, 40);
+            let (min_sc, strat) = if outage {
+                // the outage point and schedule are part of the finding: keep the scenario as found
+                let mut s2 = sc.clone();
+                // recover the outage placement from the detail line ("outage from rpc #n" / "block source call #n")
+                if let Some(rest) = f.detail.strip_prefix("outage from rpc #") {
+                    s2.down_at_rpc = rest.split(' ').next().and_then(|x| x.parse().ok());
+                } else if let Some(rest) = f.detail.strip_prefix("outage from block source call #") {
+                    s2.down_at_bs = rest.split(' ').next().and_then(|x| x.parse().ok());
+                }
+                (s2, f.strat.clone())
+            } else {
+                minimise_scenario(&sc, spec.id, &f.signature, n_sched, 40)
+            };
             let dir = verif_dir().join("replays");
             let _ = std::fs::create_dir_all(&dir);
             let path = dir.join(format!("{}-{}-{}.json", spec.id, seed, sig8(&f.signature)));
@@ -455,7 +473,7 @@ fn conc_worker(
                 property: spec.id.to_string(),
                 signature: f.signature.clone(),
                 detail: f.detail.clone(),
-                engine: "conc".into(),
+                engine: if outage { "outage".into() } else { "conc".into() },
                 scenario: min_sc,
                 strategy: strat.or(f.strat.clone()),
             };
@@ -703,7 +721,7 @@ pub fn cmd_check(args: &[String]) -> i32 {
             "concurrent_scenarios": m.scenarios,
             "scheduler_steps": m.sched_steps,
             "preemptions": m.preemptions,
-            "interleavings_distinct": if spec.engine == Engine::Conc { m.nontrivial_hashes.len() as u64 } else { m.scenarios },
+            "interleavings_distinct": if spec.engine == Engine::Conc || spec.engine == Engine::Outage { m.nontrivial_hashes.len() as u64 } else { m.scenarios },
             "schedules_whose_lock_order_graph_had_a_cycle": m.lock_order_cycles_seen,
             "faults_fired": m.faults_fired,
             "probes": m.probes,
@@ -794,7 +812,12 @@ pub fn cmd_replay(args: &[String]) -> i32 {
     let Some(path) = args.first() else { return 2 };
     if let Ok(text) = std::fs::read_to_string(path) {
         if let Ok(cr) = serde_json::from_str::<crate::conc_check::ConcReplay>(&text) {
-            return match crate::conc_check::recheck(&cr.scenario, &cr.strategy, &cr.property, &cr.signature) {
+            let r = if cr.engine == "outage" {
+                crate::conc_check::recheck_outage(&cr.scenario, &cr.strategy, &cr.signature)
+            } else {
+                crate::conc_check::recheck(&cr.scenario, &cr.strategy, &cr.property, &cr.signature)
+            };
+            return match r {
                 Some(detail) => {
                     println!("VIOLATION property={} replay={}", cr.property, path);
                     println!("  signature: {}", cr.signature);
@@ -858,6 +881,17 @@ pub fn cmd_gen(args: &[String]) -> i32 {
 pub fn cmd_one(args: &[String]) -> i32 {
     let spec = spec(&args[0]).unwrap();
     let idx: u64 = args[1].parse().unwrap();
+    if spec.engine == Engine::Outage {
+        let seed = derive(root_seed(), &format!("{}-conc", spec.id), idx);
+        let sc = crate::conc_check::gen_outage_scenario(spec.id, seed);
+        println!("{}", serde_json::to_string(&sc).unwrap());
+        let o = crate::conc_check::explore_outage(&sc, false);
+        println!("runs={} steps={} probes={:?} fired={:?}", o.runs, o.steps, o.probes, o.fired);
+        for f in o.found.iter() {
+            println!("FOUND {} {} :: {}", f.property, f.signature, f.detail);
+        }
+        return 0;
+    }
     if spec.engine == Engine::Conc {
         let seed = derive(root_seed(), &format!("{}-conc", spec.id), idx);
         let sc = crate::conc_check::gen_scenario(spec.id, seed);
